@@ -27,6 +27,17 @@ func TestMain(m *testing.M) {
 		}
 		return err
 	})
+	pbt.RegisterReplay("connect_after_reorg", func(raw json.RawMessage) error {
+		var c sim.Case
+		if err := json.Unmarshal(raw, &c); err != nil {
+			return err
+		}
+		s, err := sim.RunCase(c, env.Options{}, sim.Hooks{})
+		if s != nil {
+			s.Close()
+		}
+		return err
+	})
 	pbt.RegisterReplay("subsidy", func(raw json.RawMessage) error {
 		var h uint32
 		if err := json.Unmarshal(raw, &h); err != nil {
@@ -54,12 +65,47 @@ func TestConnect(t *testing.T) {
 	if pbt.Tier() == "thorough" {
 		p.MaxTx, p.MaxOps = 25, 150
 	}
-	pbt.Check(t, pbt.Cfg{Name: "connect", Quick: 1200, Thorough: 15000}, func(r *pbt.Run) {
+	connect(t, pbt.Cfg{Name: "connect", Quick: 1200, Thorough: 15000}, p)
+}
+
+// The same judgement in chain states reached through reorganisations: blocks are mined on any known block, withheld,
+// delivered late; what a branch's blocks spend was restored from undo data when the other branch was disconnected.
+var forkProfile = sim.Profile{
+	Forks:      true,
+	Viols:      sim.TxViolations,
+	ViolPct:    25,
+	MaxTx:      5,
+	MinOps:     10,
+	MaxOps:     50,
+	Prefixes:   []int{0, 99, 100, 101, 102, 104, 110},
+	IdlePct:    4,
+	RedelivPct: 2,
+	Halving:    true,
+	Signed:     true,
+}
+
+func TestConnectAfterReorg(t *testing.T) {
+	connect(t, pbt.Cfg{Name: "connect_after_reorg", Quick: 500, Thorough: 5000}, forkProfile)
+}
+
+func connect(t *testing.T, cfg pbt.Cfg, p sim.Profile) {
+	pbt.Check(t, cfg, func(r *pbt.Run) {
 		c := sim.GenCase(r.T, p)
 		r.Case(c)
+		sim.TakeVouchedSeen()
 		s, err := sim.RunCaseOpen(c, env.Options{}, sim.Hooks{}, pbt.FindingOpen)
 		if s != nil {
 			defer s.Close()
+			if n := sim.TakeVouchedSeen(); n > 0 {
+				r.Class("has_trusted_tx")
+				pbt.AddExtra("transactions_connected_on_the_trusted_path", n)
+			}
+			if s.Reorgs > 0 {
+				r.Class("has_reorg")
+			}
+			if s.FailedReorgs > 0 {
+				r.Class("has_failed_reorg")
+			}
 			seen := map[string]bool{}
 			for _, l := range s.Labels {
 				if strings.HasPrefix(l, "viol") || strings.HasPrefix(l, "refused") {
